@@ -595,6 +595,13 @@ pub fn all_shapes(thorough: bool) -> Vec<Box<dyn Shape>> {
         v.push(cfgs::kba::batch(vec![TAir::Add { rows: 32 }, TAir::Sub { rows: 8 }]));
         v.push(cfgs::kba::uni(mulp));
         v.push(cfgs::kba::circ(6));
+        // AIRs with periodic columns (in-circuit periodic-polynomial evaluation, C20's gadget, end to end)
+        v.push(cfgs::bb::uni(TAir::Per { rows: 8 }));
+        v.push(cfgs::kb::batch(vec![TAir::Per { rows: 16 }, add]));
+        v.push(cfgs::kbzkh::batch(vec![TAir::Per { rows: 8 }]));
+        // per-instance public values together with a global preprocessed commitment
+        v.push(cfgs::bb::batch(vec![mulp, pv]));
+        v.push(cfgs::kbzk::batch(vec![pv, mulp, add]));
     }
     if thorough {
         // larger instances: more FRI phases, wider traces, more tables rows, more quotient chunks
@@ -650,6 +657,7 @@ pub fn probe_shape(spec: &str) -> Option<Box<dyn Shape>> {
                         "addrl" => TAir::AddRl { rows },
                         "sub" => TAir::Sub { rows },
                         "pv" => TAir::Pv { rows },
+                        "per" => TAir::Per { rows },
                         "mul" => TAir::Mul { degree: 2, rows, reps: 3, prep: true },
                         "muln" => TAir::Mul { degree: 3, rows, reps: 2, prep: false },
                         _ => return None,
